@@ -18,6 +18,7 @@
     be stated as a ∀-statement over modifications: `unconditional_resistance_impossible`).
 -/
 import Emitter.Lemmas.KeyTamper
+import Emitter.Props.Tie.Key
 namespace Emitter.C12
 open Emitter Emitter.Cipher Emitter.KeyTamper
 
